@@ -1148,6 +1148,12 @@ def graph_cases(r, quick):
         for ign in ((0, 1, 2) if not quick else (r.choice([0, 0, 1, 2]),)):
             for pol in (0, 1):
                 out.append((parents, edges, ign, pol))
+    # every small graph with one extra edge, with an IGNORE entry for what lies BEHIND the link (the link itself is not ignored: a link
+    # back to an ancestor - the top directory included - still raises the loop error; finding D34)
+    for parents, edges in all_cases:
+        if len(parents) <= 2 and len(edges) == 1:
+            for pol in (0, 1):
+                out.append((parents, edges, 3, pol))
     return out, len(all_cases)
 
 
@@ -1182,6 +1188,10 @@ def graph_case(spec, xdev_at=None):
         lp = loop_edges[0][0]
         if ign == 1:
             lines.append('IGNORE ' + lp)
+        elif ign == 3:
+            # the first step of the way from the link's target back down to the link
+            back = os.path.relpath(lp, paths[edges[0][1]] or '.') if loop_edges[0][1] else os.path.basename(lp)
+            lines.append('IGNORE ' + lp + '/' + back.split('/')[0])
         else:
             d = os.path.dirname(lp)
             lines.append('IGNORE ' + (d if d else lp))
@@ -1294,7 +1304,7 @@ def c16(ctx):
         # independent oracle (keep-going mode, no IGNORE): a link to an ancestor-or-self raises the loop error,
         # and without such a link the loop error is never raised
         is_loop_err = x[0] == 'err' and x[1][0] == 'ManifestSymlinkLoop'
-        if c.meta['ign'] == 0 and c.ops[0][2] == 1:
+        if c.meta['ign'] in (0, 3) and c.ops[0][2] == 1:
             if has_loop:
                 loops += 1
                 if not is_loop_err:
